@@ -51,6 +51,17 @@ PROBES = [
     '/// doc\r\nfun f() {}\r\n',
     'fun f() {\n\tlet x = 1\n\t\tlet y = 2\n}\n',
     'fun f() { let s = "é" let t = "日本" } // é\n',
+    # comment after the closing quote of a multi-line string (the line starts inside the token)
+    'fun usage(): String {\n  let text = "Usage:\n      garden run FILE" // second line is indented on purpose\n  text\n}\n\nprintln(usage())\n',
+    'fun f() {\n  let s = "a\n          b" // c\n}\n',
+    'fun f() {\n  foo("a\nb") // c\n  // d\n  bar()\n}\n',
+    'fun f() {\n      let s = "a\n\t\tb" // c\n      // own line\n}\n',
+    'let s = "x\n    y" // toplevel\n// next\nlet t = 1\n',
+    'fun f() {\n  return "a\n      b" // c\n}\n',
+    # long signature with an empty-tuple type hint (TypeHint::as_src)
+    'fun a_very_long_function_name_for_wrapping(callback_parameter: Fun<(), Unit>, second_parameter: String, third: ()): Int { 1 }\n',
+    # a `// args: ` comment that is not a testing footer (code follows)
+    'let x = 1\n// args: not a footer\nlet y = 2\n',
 ]
 
 
